@@ -243,6 +243,7 @@ fn case_strategy() -> impl Strategy<Value = Case> {
         60 => decimal_case(),
         6 => (int_ty_strategy(), zero_literal()).prop_map(|(ty, lit)| Case::Decimal { ty, lit }),
         12 => (int_ty_strategy(), wide_literal()).prop_map(|(ty, lit)| Case::Decimal { ty, lit }),
+        2 => (int_ty_strategy(), crate::gen::lit::extreme_exponent_literal()).prop_map(|(ty, lit)| Case::Decimal { ty, lit }),
         8 => (int_ty_strategy(), prop_oneof![Just('H'), Just('Q'), Just('B')], nondecimal_value(), any::<bool>())
             .prop_map(|(ty, radix, value, lower)| Case::NonDecimal { ty, radix, value, lower }),
         2 => nondecimal_huge(),
@@ -291,7 +292,7 @@ fn grid_frac() -> [&'static str; 9] {
 }
 
 fn run(e: &Engine) {
-    e.proptest("value-directed-literals", e.tier.pick(2_000_000, 40_000_000), case_strategy, check);
+    e.proptest("value-directed-literals", e.tier.pick(4_000_000, 60_000_000), case_strategy, check);
     e.require_fraction("within 2 of a type bound", "decimal literal", 0.25);
     e.require_fraction("zero spelling", "decimal literal", 0.03);
     e.require_fraction("oracle: must be -222", "decimal literal", 0.05);
